@@ -193,9 +193,9 @@ Section Fuse.
   (** What a query sees for strategies [ZoneXorIndex] / [XorPresence]. *)
   Definition select_zxf (ix : option (list (N * fuse))) (inflight : bool) (all_zones : list N)
                         (op : cmp_op) (l : scalar) : list N :=
-    select SZoneXor inflight all_zones (apply_zone_index_only ix op l).
+    select SZoneXor op inflight all_zones (apply_zone_index_only ix op l).
   Definition select_xf (f : option fuse) (all_zones : list N) (op : cmp_op) (l : scalar) : list N :=
-    select SXorPresence false all_zones (apply_presence_only f all_zones op l).
+    select SXorPresence op false all_zones (apply_presence_only f all_zones op l).
 End Fuse.
 
 (** The exact key set as a filter (no false positives): used to run the model. *)
